@@ -19,7 +19,12 @@ Correspondence K (Model/MeasureRun.v, differ inside Coq):
     class and for Quantity holding a ufloat: nominal value and variance (`std_dev**2`) against
     the model's exact rationals within 1e-12 of a running magnitude bound (`uncertainties`
     computes in binary floats: this part is differential TESTING, labelled so).
-Oracles decide the property statement on pint alone (see ORACLES below).
+Oracles decide the property statement on pint alone (see ORACLES below); among them the
+derived-correlation oracle: one expression tree with shared variables and filled-in conversions
+(random trees incl. **, and the histories m - m.to(u), 3*m - m, (m+m)+m, (m*t)/m, (m/t)*t, m**2/m,
+K -> degC -> K) evaluated on Measurement objects (every constructor form), on Quantity objects
+holding the same ufloats and on bare ufloats with exact slopes must agree in nominal value,
+std_dev and units, and Measurement result minus Quantity result must be 0 +/- 0.
 """
 import json
 import math
